@@ -1,17 +1,17 @@
 """c2coq.py — C-to-Gallina translator (trusted; keep it small).
 
-Regenerates, on every run, a Coq rendering of selected loop-free C functions of
-the library's CURRENT source.  `translate_file(repo, "varintTagged.c", [...])`
+Regenerates, on every run, a Coq rendering of selected C functions of the
+library's CURRENT source.  `translate_file(repo, "varintTagged.c", [...])`
 asks clang for the typed AST of each function
 
-    clang -std=c11 -I<repo>/src -fsyntax-only -Xclang -ast-dump=json
+    clang -std=c11 -DNDEBUG -I<repo>/src -fsyntax-only -Xclang -ast-dump=json
           -Xclang -ast-dump-filter=<fn> <repo>/src/<file.c>
 
 (the AST carries the type of every node and every implicit conversion, so
 integer promotion and the usual arithmetic conversions are clang's, not ours)
 and emits one definition `src_<fn>` per function into coq/gen/Src_<module>.v,
 a shallow embedding into the result monad of coq/theories/CSem.v
-(`COk v | CUB why | COob`).
+(`COk v | CUB why | COob | CFuel`).
 
 SUPPORTED SUBSET (anything else => the function is emitted as
 `src_<fn>_UNTRANSLATED : unit`, never as `src_<fn>`; the construct is reported
@@ -19,22 +19,29 @@ in the generated-facts block; the translator never guesses):
   types       _Bool, (un)signed char/short/int/long/long long and the typedefs
               (u)int{8,16,32,64}_t, size_t, bool, varintWidth (each typedef is
               checked against the current headers with a _Generic probe);
-              `uint8_t *` / `const uint8_t *` parameters (a byte object);
+              `uint8_t *` / `const uint8_t *` parameters (a byte object) and
+              locals (a position inside one such object);
               `T *` parameters for a scalar T (ONE object of type T)
-  expressions integer/char literals, enum constants, parentheses, implicit and
+  expressions integer/char literals, enum constants, file-scope `const` integer
+              variables with a constant initialiser, parentheses, implicit and
               explicit integral casts, + - * / % << >> & | ^ ~ unary -,
               < <= > >= == != ! && || ?:, sizeof of a scalar type/expression
               (the source is read as the pinned build compiles it: -DNDEBUG),
               reads of locals/parameters, p[i] and *p on byte pointers, *p on
-              scalar pointers, p + i / p - i / &p[i] on byte pointers, &local
-  statements  blocks, declarations of scalar locals with or without
-              initialiser, `x = e;` `p[i] = e;` `*p = e;`, if/else, switch with
-              case/default directly in its body (fall-through and break
-              included, nested switches), return, `do { } while (0)` without
-              break/continue of its own, `(void)e;`, call statements
-  calls       only as a whole statement, initialiser, assigned value, returned
-              value or (for the overflow builtins) compared with a literal:
-              * a `static` function of the same file is inlined,
+              scalar pointers, p + i / p - i / &p[i] / p - q on byte pointers,
+              &local
+  effects     `x = e`, `x op= e`, `++x` `x++` `--x` `x--` (integers and byte
+              pointer locals), `p[i] = e`, `*p = e`, `*p++ = e`, `a, b`, calls —
+              as a statement, an initialiser, an assigned / returned value, a
+              loop or if condition, possibly under casts, `!`, or compared with
+              an integer literal; never two of them in one full expression
+              where C leaves their order open
+  statements  blocks, declarations of scalar / byte-pointer locals, if/else,
+              switch with case/default directly in its body (fall-through and
+              break included, nested switches), return, for / while / do-while
+              with break and continue (`return` inside a loop only in the
+              function being translated, not in an inlined callee), `(void)e;`
+  calls       * a `static` function of the same file is inlined,
               * a non-static function of the same file is called through its own
                 translation `src_<g>` (byte pointers must be passed unoffset,
                 no two pointer arguments may alias),
@@ -42,10 +49,9 @@ in the generated-facts block; the translator never guesses):
               * memcpy(p, &x, sizeof x) between two scalar objects of the same
                 type is the assignment *p = x,
               * __builtin_{s,u}{add,sub,mul}{,l,ll}_overflow as gcc documents them
-  rejected    loops, goto, labels, continue, ++ -- and compound assignment,
-              comma, assignment used as a value, pointer-typed locals, pointer
-              assignment, arrays, structs, unions, floating point, globals,
-              static locals, function pointers, varargs, volatile, calls to
+  rejected    goto, labels, assignment of a pointer to another object, arrays,
+              structs, unions, floating point, non-const globals, static locals,
+              function pointers, varargs, volatile, pointer comparison, calls to
               anything outside the file, recursion
 
 RENDERING
@@ -53,14 +59,21 @@ RENDERING
   c_add TS32 …: CUB on overflow; c_shl: CUB on a bad count; c_div: CUB on 0;
   c_cast from to: value-preserving or modulo 2^N).  A byte pointer parameter p
   is a `list N` m_p (loads/stores outside it are COob); a non-const one is
-  returned as the final list.  A scalar pointer parameter p is an `option Z`
-  p_p (None = the object holds no value yet) and is returned likewise.  A local
-  that has not been assigned on the path taken reads as CUB UB_uninit_read —
-  never a default value.  Falling off the end of a non-void function is
-  CUB UB_no_return.  The result is `cres (ret * out_1 * … * out_k)` (C return
-  value first if non-void, then every non-const pointer parameter in order).
-  Control flow is rendered in continuation-passing style: the code after an
-  `if` is copied into every branch that reaches it.
+  returned as the final list.  A byte pointer local is an integer offset into
+  the list of the parameter it was derived from.  A scalar pointer parameter p
+  is an `option Z` p_p (None = the object holds no value yet) and is returned
+  likewise.  A local that has not been assigned on the path taken reads as
+  CUB UB_uninit_read — never a default value.  Falling off the end of a
+  non-void function is CUB UB_no_return.  The result is
+  `cres (ret * out_1 * … * out_k)` (C return value first if non-void, then every
+  non-const pointer parameter in order).  Control flow is rendered in
+  continuation-passing style: the code after an `if` is copied into every
+  branch that reaches it.  A loop is `c_while v_fuel step state`: the state is
+  the tuple of the variables and byte objects mentioned in the loop, `step`
+  renders one iteration (LNext / LBreak / LRet), and a function that contains
+  (or calls a function that contains) a loop takes a first argument
+  `v_fuel : nat`, the number of iterations any one loop may take before the
+  outcome is CFuel; theorems are stated for every sufficient fuel.
 
 ASSUMPTIONS (the trusted reading of C)
   LP64, two's complement, CHAR_BIT = 8; conversion to a signed type and >> of a
@@ -88,6 +101,9 @@ TYPEDEFS = {"uint8_t": "unsigned char", "uint16_t": "unsigned short", "uint32_t"
             "int64_t": "long", "size_t": "unsigned long", "bool": "_Bool",
             "varintWidth": "unsigned int", "enum varintWidth": "unsigned int"}
 MAX_CHARS = 400000   # per function; continuation copying is bounded by this
+ARITH = {"+": "c_add", "-": "c_sub", "*": "c_mul", "/": "c_div", "%": "c_rem", "&": "c_and", "|": "c_or", "^": "c_xor"}
+CMP = {"<": "c_lt", "<=": "c_le", ">": "c_gt", ">=": "c_ge", "==": "c_eq", "!=": "c_ne"}
+PTR = "PTR"          # pseudo type of the offset held by a byte-pointer local
 
 
 class Untranslatable(Exception):
@@ -99,6 +115,11 @@ def rng(t):
     if t == "TBool":
         return 0, 1
     return (-(1 << (b - 1)), (1 << (b - 1)) - 1) if t[1] == "S" else (0, (1 << b) - 1)
+
+
+def promote(t):
+    """integer promotion (C11 6.3.1.1p2)"""
+    return "TS32" if BITS[t] < 32 else t
 
 
 def zlit(v):
@@ -113,9 +134,14 @@ def blk(s):
     return "(" + indent(s, 1)[1:] + ")"
 
 
+def tup(xs, empty="tt"):
+    return empty if not xs else xs[0] if len(xs) == 1 else "(%s)" % ", ".join(xs)
+
+
 class Env:
     """vars : decl id -> ('cell', key) | ('bytes', bufkey, off or None) | ('cellptr', key)
-       cells: key -> (ity, ('val', name) | ('unset',) | ('opt', name))
+                         | ('ptrvar', bufkey, key of the cell holding its offset)
+       cells: key -> (ity or PTR, ('val', name) | ('unset',) | ('opt', name))
        bufs : bufkey -> current Coq name of the byte list"""
 
     def __init__(self, vars=None, cells=None, bufs=None):
@@ -126,11 +152,18 @@ class Env:
 
 
 class Ctx:
-    """kret(env, value name or None): what `return` does; kbreak(env): what `break`
-    does; stack: the functions being inlined at this point"""
+    """kret(env, value name or None): what `return` does; kbreak / kcont(env): what
+    `break` / `continue` do; stack: the functions being inlined at this point;
+    value(env, name): the function's result value (None inside an inlined callee)"""
 
-    def __init__(self, kret, kbreak, stack):
-        self.kret, self.kbreak, self.stack = kret, kbreak, stack
+    def __init__(self, kret, kbreak, kcont, stack, value):
+        self.kret, self.kbreak, self.kcont, self.stack, self.value = kret, kbreak, kcont, stack, value
+
+    def but(self, **kw):
+        c = Ctx(self.kret, self.kbreak, self.kcont, self.stack, self.value)
+        for k, v in kw.items():
+            setattr(c, k, v)
+        return c
 
 
 class Translator:
@@ -142,8 +175,13 @@ class Translator:
         self.order = []
         self.globals_read = []
         self.n = 0
+        self.fuel = False     # the function being translated needs the fuel argument
         self.active = []
         self.enum_cache = {}
+        self.const_cache = {}
+        self.buf_const = {}   # bufkey -> the parameter is a pointer to const
+        self.locals = set()   # ids of the variables declared inside the function being translated
+        self.rty = "unit"
         self.probe_typedefs()
 
     # ------------------------------------------------------------ clang
@@ -165,18 +203,23 @@ class Translator:
         if rc != 0:
             raise RuntimeError("c2coq: type table does not match the current headers:\n" + err[-1500:])
 
+    def dump(self, name):
+        rc, out, err = self.clang(["-Xclang", "-ast-dump=json", "-Xclang", "-ast-dump-filter=" + name, self.cfile])
+        if rc != 0:
+            raise RuntimeError("c2coq: clang failed on %s: %s" % (self.cfile, err[-1500:]))
+        dec, i, objs = json.JSONDecoder(), 0, []
+        while True:
+            while i < len(out) and out[i].isspace():
+                i += 1
+            if i >= len(out):
+                return objs
+            o, i = dec.raw_decode(out, i)
+            objs.append(o)
+
     def ast(self, fn):
         if fn not in self.asts:
-            rc, out, err = self.clang(["-Xclang", "-ast-dump=json", "-Xclang", "-ast-dump-filter=" + fn, self.cfile])
-            if rc != 0:
-                raise RuntimeError("c2coq: clang failed on %s: %s" % (self.cfile, err[-1500:]))
-            dec, i, found = json.JSONDecoder(), 0, None
-            while True:
-                while i < len(out) and out[i].isspace():
-                    i += 1
-                if i >= len(out):
-                    break
-                o, i = dec.raw_decode(out, i)
+            found = None
+            for o in self.dump(fn):
                 if o.get("kind") == "FunctionDecl" and o.get("name") == fn and \
                         any(c.get("kind") == "CompoundStmt" for c in o.get("inner", [])):
                     if found is not None:
@@ -199,6 +242,20 @@ class Translator:
                     raise Untranslatable("enumeration constant %s cannot be evaluated" % name)
                 self.enum_cache[name] = int(subprocess.run([exe], stdout=subprocess.PIPE, text=True).stdout)
         return self.enum_cache[name]
+
+    def const_global(self, d):
+        """a file-scope `const` integer variable with a constant initialiser reads as that initialiser"""
+        name = d.get("name")
+        if name not in self.const_cache:
+            found = [o for o in self.dump(name) if o.get("kind") == "VarDecl" and o.get("name") == name]
+            if d["id"] in self.locals or len(found) != 1 or "init" not in found[0] or not re.match(r"^const\b", found[0]["type"]["qualType"]):
+                raise Untranslatable("reference to the variable %s (not a local, not a const with initialiser)" % name)
+            v = found[0]
+            t = self.ty(v["type"])
+            if t[0] != "int" or self.ity(v["inner"][-1]) != t[1]:
+                raise Untranslatable("const %s of non-integer type" % name)
+            self.const_cache[name] = self.expr(v["inner"][-1], Env())
+        return self.const_cache[name]
 
     # ------------------------------------------------------------ types
     def ty(self, t):
@@ -227,6 +284,9 @@ class Translator:
             raise Untranslatable("%s of non-integer type %r" % (node["kind"], node["type"]["qualType"]))
         return t[1]
 
+    def is_ptr(self, node):
+        return self.ty(node["type"])[0] == "ptr"
+
     def fresh(self, prefix, base):
         self.n += 1
         return "%s%s_%d" % (prefix, re.sub(r"\W", "_", base), self.n)
@@ -254,24 +314,26 @@ class Translator:
         if k == "BinaryOperator":
             op = n["opcode"]
             a, b = n["inner"]
-            ar = {"+": "c_add", "-": "c_sub", "*": "c_mul", "/": "c_div", "%": "c_rem",
-                  "&": "c_and", "|": "c_or", "^": "c_xor"}
-            if op in ar:
+            if op == "-" and self.is_ptr(a) and self.is_ptr(b):
+                pa, pb = self.ptr(a, env), self.ptr(b, env)
+                if pa[0] != "bytes" or pb[0] != "bytes" or pa[1] != pb[1] or self.ity(n) != "TS64":
+                    raise Untranslatable("difference of pointers into different objects")
+                return "(c_psub %s %s)" % (pa[2] or "(COk 0)", pb[2] or "(COk 0)")
+            if op in ARITH:
                 t = self.ity(n)
                 if self.ity(a) != t or self.ity(b) != t:
                     raise Untranslatable("operands of %s not converted to the result type" % op)
-                return "(%s %s %s %s)" % (ar[op], t, self.expr(a, env), self.expr(b, env))
+                return "(%s %s %s %s)" % (ARITH[op], t, self.expr(a, env), self.expr(b, env))
             if op in ("<<", ">>"):
                 t = self.ity(n)
                 if self.ity(a) != t:
                     raise Untranslatable("left operand of %s not of the result type" % op)
                 self.ity(b)
                 return "(%s %s %s %s)" % ("c_shl" if op == "<<" else "c_shr", t, self.expr(a, env), self.expr(b, env))
-            cmp = {"<": "c_lt", "<=": "c_le", ">": "c_gt", ">=": "c_ge", "==": "c_eq", "!=": "c_ne"}
-            if op in cmp:
+            if op in CMP:
                 if self.ity(a) != self.ity(b) or self.ity(n) != "TS32":
                     raise Untranslatable("comparison %s of operands of different types" % op)
-                return "(%s %s %s)" % (cmp[op], self.expr(a, env), self.expr(b, env))
+                return "(%s %s %s)" % (CMP[op], self.expr(a, env), self.expr(b, env))
             if op in ("&&", "||"):
                 self.ity(a), self.ity(b)
                 return "(%s %s %s)" % ("c_land" if op == "&&" else "c_lor", self.expr(a, env), self.expr(b, env))
@@ -331,6 +393,10 @@ class Translator:
         if k == "ParenExpr":
             return self.read(n["inner"][0], env)
         if k == "DeclRefExpr":
+            d = n["referencedDecl"]
+            if d["kind"] == "VarDecl" and d["id"] not in env.vars:
+                self.ity(n)
+                return self.const_global(d)
             v = self.var(n, env)
             if v[0] != "cell":
                 raise Untranslatable("pointer used as a value")
@@ -352,7 +418,7 @@ class Translator:
             return self.lvalue_ptr(n["inner"][0], env)
         if k == "ArraySubscriptExpr":
             a, b = n["inner"]
-            if self.ty(a["type"])[0] != "ptr":
+            if not self.is_ptr(a):
                 a, b = b, a
             return self.padd(self.ptr(a, env), "c_padd", self.expr(b, env))
         if k == "UnaryOperator" and n["opcode"] == "*":
@@ -386,13 +452,15 @@ class Translator:
                 v = self.var(sub, env)
                 if v[0] == "cell":
                     raise Untranslatable("integer used as a pointer")
+                if v[0] == "ptrvar":
+                    return ("bytes", v[1], self.cell_read(env, v[2]))
                 return v
-            if ck == "NoOp" and self.ty(sub["type"])[0] == "ptr" and self.ty(sub["type"])[2] == t[2]:
+            if ck == "NoOp" and self.is_ptr(sub) and self.ty(sub["type"])[2] == t[2]:
                 return self.ptr(sub, env)
             raise Untranslatable("pointer cast %s" % ck)
         if k == "BinaryOperator" and n["opcode"] in ("+", "-"):
             a, b = n["inner"]
-            if self.ty(a["type"])[0] != "ptr":
+            if not self.is_ptr(a):
                 if n["opcode"] == "-":
                     raise Untranslatable("integer - pointer")
                 a, b = b, a
@@ -402,7 +470,7 @@ class Translator:
             return self.lvalue_ptr(n["inner"][0], env)
         raise Untranslatable("pointer expression %s" % k)
 
-    # ------------------------------------------------------------ statements (continuation-passing)
+    # ------------------------------------------------------------ expressions with effects (continuation-passing)
     def bind(self, pat, term, rest):
         return "%s <- %s ;;\n%s" % (pat, term, rest)
 
@@ -411,61 +479,17 @@ class Translator:
         e.cells[key] = (env.cells[key][0], ("val", name))
         return e
 
-    def rhs(self, n, env, k, ctx, hint="t"):
-        """evaluate n (which may be a call under casts / a comparison of a call
-        with a literal), then k(env', name of the value)"""
-        wraps, core = [], n
-        while True:
-            if core["kind"] in ("ParenExpr", "ConstantExpr"):
-                core = core["inner"][0]
-            elif core["kind"] in ("ImplicitCastExpr", "CStyleCastExpr") and \
-                    core["castKind"] in ("IntegralCast", "IntegralToBoolean"):
-                wraps.append((self.ity(core["inner"][0]), self.ity(core)))
-                core = core["inner"][0]
-            else:
-                break
-        if core["kind"] == "BinaryOperator" and core["opcode"] in ("==", "!=") and \
-                self.strip(core["inner"][0])["kind"] == "CallExpr" and self.strip(core["inner"][1])["kind"] == "IntegerLiteral":
-            a, b = core["inner"]
-            if self.ity(a) != self.ity(b):
-                raise Untranslatable("comparison of operands of different types")
+    def effectful(self, n):
+        k = n.get("kind")
+        if k in ("CallExpr", "CompoundAssignOperator") or (k == "BinaryOperator" and n["opcode"] in ("=", ",")) or \
+                (k == "UnaryOperator" and n["opcode"] in ("++", "--")):
+            return True
+        return any(self.effectful(c) for c in n.get("inner", []) if isinstance(c, dict))
 
-            def after(e2, r):
-                t = "(%s (COk %s) %s)" % ("c_eq" if core["opcode"] == "==" else "c_ne", r, self.expr(b, e2))
-                for (f, to) in reversed(wraps):
-                    t = "(c_cast %s %s %s)" % (f, to, t)
-                v = self.fresh("v_", hint)
-                return self.bind(v, t, k(e2, v))
-            return self.rhs(a, env, after, ctx)
-        if core["kind"] == "ConditionalOperator" and self.has_call(core):
-            c, a, b = core["inner"]
-            if self.has_call(c) or self.ity(a) != self.ity(core) or self.ity(b) != self.ity(core):
-                raise Untranslatable("?: with a call in its condition / unconverted arms")
-
-            def arm(e2, r):
-                if not wraps:
-                    return k(e2, r)
-                t = "(COk %s)" % r
-                for (f, to) in reversed(wraps):
-                    t = "(c_cast %s %s %s)" % (f, to, t)
-                v = self.fresh("v_", hint)
-                return self.bind(v, t, k(e2, v))
-            return "c_cond %s\n%s\n%s" % (self.expr(c, env), indent(blk(self.rhs(a, env, arm, ctx, hint))),
-                                          indent(blk(self.rhs(b, env, arm, ctx, hint))))
-        if core["kind"] == "CallExpr":
-            def after(e2, r):
-                if r is None:
-                    raise Untranslatable("value of a void call")
-                if not wraps:
-                    return k(e2, r)
-                t = "(COk %s)" % r
-                for (f, to) in reversed(wraps):
-                    t = "(c_cast %s %s %s)" % (f, to, t)
-                v = self.fresh("v_", hint)
-                return self.bind(v, t, k(e2, v))
-            return self.call(core, env, after, ctx)
-        v = self.fresh("v_", hint)
-        return self.bind(v, self.expr(n, env), k(env, v))
+    def refers(self, n, declid):
+        r = n.get("referencedDecl")
+        return (n.get("kind") == "DeclRefExpr" and r and r.get("id") == declid) or \
+            any(self.refers(c, declid) for c in n.get("inner", []) if isinstance(c, dict))
 
     def strip(self, n):
         while n["kind"] in ("ParenExpr", "ConstantExpr") or \
@@ -473,6 +497,201 @@ class Translator:
             n = n["inner"][0]
         return n
 
+    def unparen(self, n):
+        while n["kind"] == "ParenExpr":
+            n = n["inner"][0]
+        return n
+
+    def rhs(self, n, env, k, ctx, hint="t"):
+        """evaluate the integer expression n, whose spine may carry calls,
+        assignments, ++ / --, then k(env', name of the value)"""
+        if not self.effectful(n):
+            v = self.fresh("v_", hint)
+            return self.bind(v, self.expr(n, env), k(env, v))
+        kind = n["kind"]
+        if kind in ("ParenExpr", "ConstantExpr"):
+            return self.rhs(n["inner"][0], env, k, ctx, hint)
+        if kind in ("ImplicitCastExpr", "CStyleCastExpr") and n["castKind"] in ("IntegralCast", "IntegralToBoolean"):
+            f, to = self.ity(n["inner"][0]), self.ity(n)
+
+            def after(e2, r):
+                if r is None:
+                    raise Untranslatable("value of a void call")
+                v = self.fresh("v_", hint)
+                return self.bind(v, "(c_cast %s %s (COk %s))" % (f, to, r), k(e2, v))
+            return self.rhs(n["inner"][0], env, after, ctx, hint)
+        if kind == "CallExpr":
+            def after(e2, r):
+                if r is None:
+                    raise Untranslatable("value of a void call")
+                return k(e2, r)
+            return self.call(n, env, after, ctx)
+        if kind == "BinaryOperator" and n["opcode"] == ",":
+            return self.effect(n["inner"][0], env, lambda e2: self.rhs(n["inner"][1], e2, k, ctx, hint), ctx)
+        if kind == "BinaryOperator" and n["opcode"] == "=":
+            return self.assign(n["inner"][0], n["inner"][1], env, k, ctx)
+        if kind == "CompoundAssignOperator":
+            return self.compound(n, env, k, ctx)
+        if kind == "UnaryOperator" and n["opcode"] in ("++", "--"):
+            return self.incdec(n, env, k, ctx)
+        if kind == "UnaryOperator" and n["opcode"] == "!":
+            self.ity(n["inner"][0])
+
+            def after(e2, r):
+                v = self.fresh("v_", hint)
+                return self.bind(v, "(c_lnot (COk %s))" % r, k(e2, v))
+            return self.rhs(n["inner"][0], env, after, ctx, hint)
+        if kind == "BinaryOperator" and n["opcode"] in CMP:
+            a, b = n["inner"]
+            if self.strip(b)["kind"] != "IntegerLiteral" or self.ity(a) != self.ity(b):
+                raise Untranslatable("comparison of an expression with effects with something other than a literal")
+
+            def after(e2, r):
+                v = self.fresh("v_", hint)
+                return self.bind(v, "(%s (COk %s) %s)" % (CMP[n["opcode"]], r, self.expr(b, e2)), k(e2, v))
+            return self.rhs(a, env, after, ctx, hint)
+        if kind == "ConditionalOperator":
+            c, a, b = n["inner"]
+            if self.effectful(c) or self.ity(a) != self.ity(n) or self.ity(b) != self.ity(n):
+                raise Untranslatable("?: with effects in its condition / unconverted arms")
+            return "c_cond %s\n%s\n%s" % (self.expr(c, env), indent(blk(self.rhs(a, env, k, ctx, hint))),
+                                          indent(blk(self.rhs(b, env, k, ctx, hint))))
+        raise Untranslatable("%s%s with effects inside an expression" % (kind, (" " + n["opcode"]) if "opcode" in n else ""))
+
+    def effect(self, n, env, k, ctx):
+        """evaluate n for its effects only, then k(env')"""
+        n = self.unparen(n)
+        kind = n["kind"]
+        if kind == "CallExpr":
+            return self.call(n, env, lambda e2, r: k(e2), ctx)
+        if kind == "CStyleCastExpr" and n["castKind"] == "ToVoid":
+            return self.effect(n["inner"][0], env, k, ctx)
+        if kind == "BinaryOperator" and n["opcode"] == ",":
+            return self.effect(n["inner"][0], env, lambda e2: self.effect(n["inner"][1], e2, k, ctx), ctx)
+        if kind == "BinaryOperator" and n["opcode"] == "=":
+            return self.assign(n["inner"][0], n["inner"][1], env, lambda e2, r: k(e2), ctx)
+        if kind == "CompoundAssignOperator":
+            return self.compound(n, env, lambda e2, r: k(e2), ctx)
+        if kind == "UnaryOperator" and n["opcode"] in ("++", "--"):
+            return self.incdec(n, env, lambda e2, r: k(e2), ctx)
+        if "type" not in n or self.ty(n["type"])[0] != "int":
+            raise Untranslatable("statement %s" % kind)
+        return self.rhs(n, env, lambda e2, r: k(e2), ctx, "_")
+
+    def ptrvar(self, n, env):
+        """the byte-pointer local named by n, or None"""
+        n = self.unparen(n)
+        if n["kind"] == "DeclRefExpr" and n["referencedDecl"]["id"] in env.vars:
+            v = env.vars[n["referencedDecl"]["id"]]
+            if v[0] == "ptrvar":
+                return v
+        return None
+
+    def move(self, v, env, term, k):
+        """set the offset of the pointer local v to term, then k(env')"""
+        nm = self.fresh("v_", "off")
+        return self.bind(nm, term, k(self.set_cell(env, v[2], nm)))
+
+    def incdec(self, n, env, k, ctx):
+        sub, up = n["inner"][0], n["opcode"] == "++"
+        v = self.ptrvar(sub, env)
+        if v:
+            return self.move(v, env, "(%s %s (COk 1))" % ("c_padd" if up else "c_psub", self.cell_read(env, v[2])),
+                             lambda e2: k(e2, None))
+        t = self.ity(sub)
+        p = promote(t)
+        old = self.fresh("v_", "old")
+        new = "(c_cast %s %s (%s %s (c_cast %s %s (COk %s)) (COk 1)))" % (p, t, "c_add" if up else "c_sub", p, t, p, old)
+        return self.bind(old, self.read(sub, env),
+                         self.store(sub, new, env, lambda e2, r: k(e2, old if n.get("isPostfix") else r)))
+
+    def compound(self, n, env, k, ctx):
+        lhs, rhs = n["inner"]
+        op = n["opcode"][:-1]
+        v = self.ptrvar(lhs, env)
+        if v:
+            if op not in ("+", "-") or self.effectful(rhs):
+                raise Untranslatable("compound assignment %s on a pointer" % n["opcode"])
+            self.ity(rhs)
+            return self.move(v, env, "(%s %s %s)" % ("c_padd" if op == "+" else "c_psub", self.cell_read(env, v[2]),
+                                                     self.expr(rhs, env)), lambda e2: k(e2, None))
+        t, cl, cr = self.ity(lhs), self.ty(n["computeLHSType"]), self.ty(n["computeResultType"])
+        if cl[0] != "int" or cr != cl or self.effectful(rhs):
+            raise Untranslatable("compound assignment %s of this shape" % n["opcode"])
+        a = "(c_cast %s %s %s)" % (t, cl[1], self.read(lhs, env))
+        if op in ("<<", ">>"):
+            self.ity(rhs)
+            r = "(%s %s %s %s)" % ("c_shl" if op == "<<" else "c_shr", cl[1], a, self.expr(rhs, env))
+        elif op in ARITH and self.ity(rhs) == cl[1]:
+            r = "(%s %s %s %s)" % (ARITH[op], cl[1], a, self.expr(rhs, env))
+        else:
+            raise Untranslatable("compound assignment %s" % n["opcode"])
+        return self.store(lhs, "(c_cast %s %s %s)" % (cl[1], t, r), env, k)
+
+    def store(self, lhs, term, env, k):
+        """lhs := value of term (already of lhs's type); then k(env', name of the value)"""
+        lhs = self.unparen(lhs)
+        p = self.lvalue_ptr(lhs, env)
+        nm = self.fresh("v_", lhs["referencedDecl"]["name"] if lhs["kind"] == "DeclRefExpr" else "a")
+        if p[0] == "bytes":
+            if self.ity(lhs) != "TU8" or self.buf_const.get(p[1]):
+                raise Untranslatable("store through a pointer to const / of a non-byte through a byte pointer")
+            m = self.fresh("m_", "")
+            e = env.copy()
+            e.bufs[p[1]] = m
+            return self.bind(nm, term, self.bind(m, "(c_store %s %s (COk %s))" % (env.bufs[p[1]], p[2] or "(COk 0)", nm), k(e, nm)))
+        if env.cells[p[1]][0] != self.ity(lhs):
+            raise Untranslatable("object assigned through a pointer of another type")
+        return self.bind(nm, term, k(self.set_cell(env, p[1], nm), nm))
+
+    def assign(self, lhs, rhs, env, k, ctx):
+        """lhs = rhs; then k(env', name of the assigned value or None)"""
+        lhs = self.unparen(lhs)
+        v = self.ptrvar(lhs, env)
+        if v:                                            # q = <pointer into the same object>
+            p = self.ptr(rhs, env)
+            if p[0] != "bytes" or p[1] != v[1]:
+                raise Untranslatable("pointer assigned a pointer into another object")
+            return self.move(v, env, p[2] or "(COk 0)", lambda e2: k(e2, None))
+        if self.ity(lhs) != self.ity(rhs):
+            raise Untranslatable("assigned value not converted to the type of the object")
+        # *q++ = e  (q a byte-pointer local that e does not mention)
+        if lhs["kind"] == "UnaryOperator" and lhs["opcode"] == "*":
+            q = self.unparen(lhs["inner"][0])
+            if q["kind"] == "UnaryOperator" and q["opcode"] in ("++", "--"):
+                pv = self.ptrvar(q["inner"][0], env)
+                if not pv or self.effectful(rhs) or self.refers(rhs, self.unparen(q["inner"][0])["referencedDecl"]["id"]) \
+                        or self.ity(lhs) != "TU8" or self.buf_const.get(pv[1]):
+                    raise Untranslatable("store through %s of this shape" % q["opcode"])
+                step = "(%s %s (COk 1))" % ("c_padd" if q["opcode"] == "++" else "c_psub", self.cell_read(env, pv[2]))
+
+                def put(e2, at):
+                    nm, m = self.fresh("v_", "a"), self.fresh("m_", "")
+                    e3 = e2.copy()
+                    e3.bufs[pv[1]] = m
+                    return nm, m, e3, "(c_store %s %s (COk %s))" % (e2.bufs[pv[1]], at, nm)
+                if q.get("isPostfix"):
+                    nm, m, e3, st = put(env, self.cell_read(env, pv[2]))
+                    return self.bind(nm, self.expr(rhs, env), self.bind(m, st, self.move(pv, e3, step, lambda e4: k(e4, nm))))
+
+                def moved(e2):
+                    nm, m, e3, st = put(e2, self.cell_read(e2, pv[2]))
+                    return self.bind(nm, self.expr(rhs, e2), self.bind(m, st, k(e3, nm)))
+                return self.move(pv, env, step, moved)
+        p = self.lvalue_ptr(lhs, env)
+        if p[0] == "bytes":
+            if self.ity(lhs) != "TU8" or self.effectful(rhs) or self.buf_const.get(p[1]):
+                raise Untranslatable("store through a byte pointer of a non-byte / of a value with effects / to const")
+            m = self.fresh("m_", "")
+            e = env.copy()
+            e.bufs[p[1]] = m
+            return self.bind(m, "(c_store %s %s %s)" % (env.bufs[p[1]], p[2] or "(COk 0)", self.expr(rhs, env)), k(e, None))
+        if env.cells[p[1]][0] != self.ity(lhs):
+            raise Untranslatable("object assigned through a pointer of another type")
+        hint = lhs["referencedDecl"]["name"] if lhs["kind"] == "DeclRefExpr" else "a"
+        return self.rhs(rhs, env, lambda e2, r: k(self.set_cell(e2, p[1], r), r), ctx, hint)
+
+    # ------------------------------------------------------------ statements (continuation-passing)
     def seq(self, lst, env, k, ctx):
         if not lst:
             return k(env)
@@ -483,6 +702,13 @@ class Translator:
         if len(out) > MAX_CHARS:
             raise Untranslatable("translation too large (continuations copied too often)")
         return out
+
+    def cond(self, c, env, k, ctx):
+        """evaluate the controlling expression c, then k(env', term of its value)"""
+        self.ity(c)
+        if self.effectful(c):
+            return self.rhs(c, env, lambda e2, r: k(e2, "(COk %s)" % r), ctx, "c")
+        return k(env, self.expr(c, env))
 
     def stmt1(self, n, env, k, ctx):
         kind = n["kind"]
@@ -499,37 +725,27 @@ class Translator:
         if kind == "IfStmt":
             if n.get("hasInit") or n.get("hasVar") or len(n["inner"]) not in (2, 3):
                 raise Untranslatable("if with declaration")
-            c = n["inner"][0]
-            self.ity(c)
 
             def branches(e2, cv):
                 th = self.stmt(n["inner"][1], e2, k, ctx)
                 el = self.stmt(n["inner"][2], e2, k, ctx) if len(n["inner"]) == 3 else k(e2)
                 return "c_cond %s\n%s\n%s" % (cv, indent(blk(th)), indent(blk(el)))
-            if self.has_call(c):
-                return self.rhs(c, env, lambda e2, r: branches(e2, "(COk %s)" % r), ctx, "c")
-            return branches(env, self.expr(c, env))
+            return self.cond(n["inner"][0], env, branches, ctx)
         if kind == "SwitchStmt":
             return self.switch(n, env, k, ctx)
         if kind == "BreakStmt":
             if ctx.kbreak is None:
-                raise Untranslatable("break outside a switch")
+                raise Untranslatable("break outside a switch or loop")
             return ctx.kbreak(env)
-        if kind == "DoStmt":
-            body, cond = n["inner"]
-            if not (cond["kind"] == "IntegerLiteral" and int(cond["value"]) == 0):
-                raise Untranslatable("loop (do-while)")
-            return self.stmt(body, env, k, Ctx(ctx.kret, None, ctx.stack))
-        if kind == "CallExpr":
-            return self.call(n, env, lambda e2, r: k(e2), ctx)
-        if kind == "CStyleCastExpr" and n["castKind"] == "ToVoid":
-            return self.bind("_", self.expr(n["inner"][0], env), k(env))
-        if kind == "BinaryOperator" and n["opcode"] == "=":
-            return self.assign(n["inner"][0], n["inner"][1], env, k, ctx)
-        raise Untranslatable("statement %s%s" % (kind, (" " + n["opcode"]) if "opcode" in n else ""))
-
-    def has_call(self, n):
-        return n.get("kind") == "CallExpr" or any(self.has_call(c) for c in n.get("inner", []) if isinstance(c, dict))
+        if kind == "ContinueStmt":
+            if ctx.kcont is None:
+                raise Untranslatable("continue outside a loop")
+            return ctx.kcont(env)
+        if kind == "DoStmt" and n["inner"][1]["kind"] == "IntegerLiteral" and int(n["inner"][1]["value"]) == 0:
+            return self.stmt(n["inner"][0], env, k, ctx.but(kbreak=k, kcont=k))     # do { … } while (0)
+        if kind in ("ForStmt", "WhileStmt", "DoStmt"):
+            return self.loop(n, env, k, ctx)
+        return self.effect(n, env, k, ctx)
 
     def decls(self, ds, env, k, ctx):
         if not ds:
@@ -538,43 +754,35 @@ class Translator:
         if d["kind"] != "VarDecl" or d.get("storageClass") or d.get("tls"):
             raise Untranslatable("declaration %s %s" % (d["kind"], d.get("storageClass", "")))
         t = self.ty(d["type"])
-        if t[0] != "int":
-            raise Untranslatable("local %s of non-scalar type %s" % (d["name"], d["type"]["qualType"]))
         e = env.copy()
+        if t[0] == "ptr" and t[2] == ("int", "TU8"):       # byte pointer local = an offset into the object of a parameter
+            if d.get("init") != "c":
+                raise Untranslatable("pointer %s declared without initialiser" % d["name"])
+            p = self.ptr(d["inner"][0], env)
+            if p[0] != "bytes":
+                raise Untranslatable("pointer %s initialised with a pointer to a scalar" % d["name"])
+            nm = self.fresh("v_", d["name"] + "_off")
+            e.vars[d["id"]] = ("ptrvar", p[1], d["id"])
+            e.cells[d["id"]] = (PTR, ("val", nm))
+            return self.bind(nm, p[2] or "(COk 0)", self.decls(ds[1:], e, k, ctx))
+        if t[0] != "int":
+            raise Untranslatable("local %s of type %s" % (d["name"], d["type"]["qualType"]))
         e.vars[d["id"]] = ("cell", d["id"])
         e.cells[d["id"]] = (t[1], ("unset",))
         if "init" not in d:
             return self.decls(ds[1:], e, k, ctx)
         if d["init"] != "c" or self.ity(d["inner"][0]) != t[1]:
             raise Untranslatable("initialiser of %s" % d["name"])
-
         return self.rhs(d["inner"][0], e, lambda e2, r: self.decls(ds[1:], self.set_cell(e2, d["id"], r), k, ctx),
                         ctx, d["name"])
-
-    def assign(self, lhs, rhs, env, k, ctx):
-        while lhs["kind"] == "ParenExpr":
-            lhs = lhs["inner"][0]
-        if self.ity(lhs) != self.ity(rhs):
-            raise Untranslatable("assigned value not converted to the type of the object")
-        p = self.lvalue_ptr(lhs, env)
-        if p[0] == "bytes":
-            if self.ity(lhs) != "TU8" or self.has_call(rhs):
-                raise Untranslatable("store through a byte pointer of a non-byte / of a call result")
-            m = self.fresh("m_", "")
-            e = env.copy()
-            e.bufs[p[1]] = m
-            return self.bind(m, "(c_store %s %s %s)" % (env.bufs[p[1]], p[2] or "(COk 0)", self.expr(rhs, env)), k(e))
-        if env.cells[p[1]][0] != self.ity(lhs):
-            raise Untranslatable("object assigned through a pointer of another type")
-
-        hint = lhs["referencedDecl"]["name"] if lhs["kind"] == "DeclRefExpr" else "a"
-        return self.rhs(rhs, env, lambda e2, r: k(self.set_cell(e2, p[1], r)), ctx, hint)
 
     def switch(self, n, env, k, ctx):
         if n.get("hasInit") or n.get("hasVar") or len(n["inner"]) != 2 or n["inner"][1]["kind"] != "CompoundStmt":
             raise Untranslatable("switch of an unsupported shape")
         cond, body = n["inner"]
         ct = self.ity(cond)
+        if self.effectful(cond):
+            raise Untranslatable("switch on an expression with effects")
         items = []
         for s in body.get("inner", []):
             labels = []
@@ -590,7 +798,7 @@ class Translator:
             items.append((labels, s))
         if items and not items[0][0]:
             raise Untranslatable("statement before the first case label")
-        inner = Ctx(ctx.kret, k, ctx.stack)
+        inner = ctx.but(kbreak=k)
         sv = self.fresh("v_", "sw")
         default = None
         arms = []
@@ -612,6 +820,112 @@ class Translator:
             out = "c_cond %s\n%s\n%s" % (t, indent(blk(code)), indent(blk(out)))
         return self.bind(sv, self.expr(cond, env), out)
 
+    # ------------------------------------------------------------ loops
+    def loop_state(self, parts, env):
+        """the variables and byte objects of the enclosing scope that the loop
+        mentions (a superset of what it modifies), in order of appearance"""
+        cells, bufs = [], []
+
+        def add(lst, x):
+            if x not in lst:
+                lst.append(x)
+
+        def walk(n):
+            r = n.get("referencedDecl")
+            if n.get("kind") == "DeclRefExpr" and r and r.get("id") in env.vars:
+                v = env.vars[r["id"]]
+                if v[0] in ("cell", "cellptr"):
+                    add(cells, v[1])
+                elif v[0] == "ptrvar":
+                    add(cells, v[2])
+                if v[0] in ("bytes", "ptrvar") and not self.buf_const.get(v[1]):
+                    add(bufs, v[1])
+            for c in n.get("inner", []):
+                if isinstance(c, dict):
+                    walk(c)
+        for p in parts:
+            if p:
+                walk(p)
+        return cells, bufs
+
+    def loop(self, n, env, k, ctx):
+        kind, inner = n["kind"], n["inner"]
+        if kind == "ForStmt":
+            if len(inner) != 5 or inner[1]:
+                raise Untranslatable("for with a condition declaration")
+            init, cond, inc, body = inner[0], inner[2], inner[3], inner[4]
+            if init:
+                return self.stmt(init, env, lambda e: self.loop1(None, cond, inc, body, False, e, k, ctx), ctx)
+            return self.loop1(None, cond, inc, body, False, env, k, ctx)
+        if kind == "WhileStmt":
+            if len(inner) != 2:
+                raise Untranslatable("while with a declaration")
+            return self.loop1(None, inner[0], None, inner[1], False, env, k, ctx)
+        return self.loop1(None, inner[1], None, inner[0], True, env, k, ctx)
+
+    def loop1(self, _, cond, inc, body, body_first, env, k, ctx):
+        self.fuel = True
+        cells, bufs = self.loop_state([cond, inc, body], env)
+        opt = [env.cells[c][1][0] != "val" for c in cells]       # carried as option Z: may hold no value
+
+        def names(e):                                            # a fresh name per component, and the env using them
+            e2, xs = e.copy(), []
+            for c, o in zip(cells, opt):
+                nm = self.fresh("p_" if o else "v_", "s")
+                e2.cells[c] = (e.cells[c][0], ("opt", nm) if o else ("val", nm))
+                xs.append(nm)
+            for b in bufs:
+                nm = self.fresh("m_", "s")
+                e2.bufs[b] = nm
+                xs.append(nm)
+            return e2, xs
+
+        def pack(e):
+            xs = []
+            for c, o in zip(cells, opt):
+                st = e.cells[c][1]
+                if o:
+                    xs.append("None" if st[0] == "unset" else "Some %s" % st[1] if st[0] == "val" else st[1])
+                elif st[0] != "val":
+                    raise Untranslatable("loop variable that may hold no value")
+                else:
+                    xs.append(st[1])
+            return tup(xs + [e.bufs[b] for b in bufs])
+
+        def nxt(e):
+            return "COk (LNext %s)" % pack(e)
+
+        def brk(e):
+            return "COk (LBreak %s)" % pack(e)
+
+        def ret(e, r):
+            if ctx.value is None:
+                raise Untranslatable("return inside a loop of an inlined function")
+            return "COk (LRet %s)" % ctx.value(e, r)
+        lctx = ctx.but(kret=ret, kbreak=brk)
+        e_in, pat = names(env)
+
+        def after_body(e):
+            return self.effect(inc, e, nxt, lctx) if inc else nxt(e)
+
+        def test(e, then):
+            if not cond:
+                return then(e)
+            return self.cond(cond, e, lambda e2, cv: "c_cond %s\n%s\n%s" % (cv, indent(blk(then(e2))), indent(blk(brk(e2)))), lctx)
+        if body_first:      # do body while (cond): continue jumps to the test
+            def tail(e):
+                return test(e, nxt)
+            step = self.stmt(body, e_in, tail, lctx.but(kcont=tail))
+        else:               # while / for: continue jumps to the increment
+            step = test(e_in, lambda e: self.stmt(body, e, after_body, lctx.but(kcont=after_body)))
+        e_out, pat2 = names(env)
+        l = self.fresh("l_", "")
+        fn = "fun %s =>" % ("'" + tup(pat) if len(pat) > 1 else pat[0] if pat else "_")
+        return self.bind(l, "c_while (R:=%s) v_fuel\n%s\n%s" % (self.rty if ctx.value else "unit", indent(blk(fn + "\n" + indent(step))),
+                                                                 indent(pack(env))),
+                         "match %s with\n| LRet r => %s\n| LNext %s | LBreak %s =>\n%s\nend" % (
+                             l, "COk r" if ctx.value else "CUB UB_no_return", tup(pat2, "_"), tup(pat2, "_"), indent(k(e_out))))
+
     # ------------------------------------------------------------ calls
     def call(self, n, env, k, ctx):
         """k(env', name of the returned value or None)"""
@@ -621,6 +935,8 @@ class Translator:
         if f["kind"] != "DeclRefExpr" or f["referencedDecl"]["kind"] != "FunctionDecl":
             raise Untranslatable("indirect call")
         name, args = f["referencedDecl"]["name"], n["inner"][1:]
+        if any(self.effectful(a) for a in args):
+            raise Untranslatable("argument with effects")
         if name == "memcpy":
             return self.memcpy(args, env, k)
         m = re.match(r"^__builtin_([su])(add|sub|mul)(|l|ll)_overflow$", name)
@@ -647,7 +963,7 @@ class Translator:
         if d[0] != "cellptr" or s[0] != "cellptr" or sz["kind"] != "UnaryExprOrTypeTraitExpr" or sz.get("name") != "sizeof":
             raise Untranslatable("memcpy other than (scalar object, scalar object, sizeof)")
         td, ts = env.cells[d[1]][0], env.cells[s[1]][0]
-        if td != ts or self.sizeof(sz) * 8 != BITS[td] or d[1] == s[1]:
+        if td != ts or td == PTR or self.sizeof(sz) * 8 != BITS[td] or d[1] == s[1]:
             raise Untranslatable("memcpy between objects of different types or of another size")
         nm = self.fresh("v_", "cpy")
         return self.bind(nm, self.cell_read(env, s[1]), k(self.set_cell(env, d[1], nm), None))
@@ -693,18 +1009,20 @@ class Translator:
             elif t[0] == "ptr":
                 v = self.ptr(a, env)
                 self.check_ptr(v, t, env)
-                if v[0] == "bytes" and v[2] is not None:
+                if v[0] == "bytes" and v[2] is not None:   # evaluated once; the parameter is a pointer variable of the callee
                     nm = self.fresh("v_", p["name"] + "_off")
                     binds.append((nm, v[2]))
-                    v = ("bytes", v[1], "(COk %s)" % nm)
-                e.vars[p["id"]] = v
+                    e.vars[p["id"]] = ("ptrvar", v[1], p["id"])
+                    e.cells[p["id"]] = (PTR, ("val", nm))
+                else:
+                    e.vars[p["id"]] = v
             else:
                 raise Untranslatable("parameter type")
         body = [c for c in d["inner"] if c["kind"] == "CompoundStmt"][0]
 
         def fall(e2):
             return k(e2, None) if rt == ("void",) else "CUB UB_no_return"
-        out = self.stmt(body, e, fall, Ctx(lambda e2, r: k(e2, r), None, ctx.stack + (name,)))
+        out = self.stmt(body, e, fall, Ctx(lambda e2, r: k(e2, r), None, None, ctx.stack + (name,), None))
         for (nm, t) in reversed(binds):
             out = self.bind(nm, t, out)
         return out
@@ -713,6 +1031,8 @@ class Translator:
         if v[0] == "bytes":
             if t[2] != ("int", "TU8"):
                 raise Untranslatable("byte pointer passed as a pointer to another type")
+            if self.buf_const.get(v[1]) and not t[1]:
+                raise Untranslatable("pointer to const passed as a pointer to non-const")
         elif t[2] != ("int", env.cells[v[1]][0]):
             raise Untranslatable("pointer to an object passed as a pointer to another type")
 
@@ -725,6 +1045,9 @@ class Translator:
         if len(sig["params"]) != len(args):
             raise Untranslatable("arity of %s" % name)
         binds, actual, outs, seen, e = [], [], [], set(), env.copy()
+        if sig["fuel"]:
+            self.fuel = True
+            actual.append("v_fuel")
         for (pk, pt, pconst, _), a in zip(sig["params"], args):
             if pk == "int":
                 if self.ity(a) != pt:
@@ -769,8 +1092,8 @@ class Translator:
             return
         if fn in self.active:
             raise Untranslatable("recursion through %s" % fn)
-        saved = self.n
-        self.n = 0
+        saved = (self.n, self.fuel, self.rty, self.buf_const)
+        self.n, self.fuel, self.buf_const = 0, False, {}
         self.active.append(fn)
         try:
             d = self.ast(fn)
@@ -782,9 +1105,10 @@ class Translator:
             self.done[fn] = {"error": str(e)}
         self.active.pop()
         self.order.append(fn)
-        self.n = saved
+        self.n, self.fuel, self.rty, self.buf_const = saved
 
     def scan_globals(self, fn, d):
+        """non-const variables with static storage duration the function refers to"""
         local = set()
 
         def decls(n):
@@ -799,21 +1123,23 @@ class Translator:
 
         def refs(n):
             r = n.get("referencedDecl")
-            if n.get("kind") == "DeclRefExpr" and r and r.get("kind") in ("VarDecl", "ParmVarDecl") and r["id"] not in local:
+            if n.get("kind") == "DeclRefExpr" and r and r.get("kind") in ("VarDecl", "ParmVarDecl") and r["id"] not in local \
+                    and not re.match(r"^const\b", r.get("type", {}).get("qualType", "")):
                 self.note_global("%s:%s" % (fn, r.get("name")))
             for c in n.get("inner", []):
                 if isinstance(c, dict):
                     refs(c)
         decls(d)
         refs(d)
+        self.locals = local
 
     def note_global(self, s):
         if s not in self.globals_read:
             self.globals_read.append(s)
 
-    def function1(self, fn, d):
-        ps = self.params(d)
-        rt = self.ret_type(d)
+    def signature(self, d):
+        """Coq parameters, result components and initial environment from the prototype"""
+        ps, rt = self.params(d), self.ret_type(d)
         if rt[0] == "ptr":
             raise Untranslatable("pointer return type")
         env, coq_params, sig_params, outs = Env(), [], [], []
@@ -827,8 +1153,10 @@ class Translator:
                 sig_params.append(("int", t[1], False, p["name"]))
             elif t[0] == "ptr" and t[2] == ("int", "TU8"):
                 nm = "m_" + p["name"]
+                # the parameter itself is a pointer variable (it may be advanced): its offset starts at 0
                 env.vars[p["id"]] = ("bytes", p["id"], None)
                 env.bufs[p["id"]] = nm
+                self.buf_const[p["id"]] = t[1]
                 coq_params.append("(%s : list N)" % nm)
                 sig_params.append(("bytes", "TU8", t[1], p["name"]))
                 if not t[1]:
@@ -845,9 +1173,13 @@ class Translator:
             else:
                 raise Untranslatable("parameter %s of type %s" % (p["name"], p["type"]["qualType"]))
         comps = (["Z"] if rt != ("void",) else []) + ["list N" if o[0] == "bytes" else "option Z" for o in outs]
-        rty = " * ".join(comps) if comps else "unit"
+        return env, coq_params, sig_params, outs, rt, " * ".join(comps) if comps else "unit"
 
-        def result(e, r):
+    def function1(self, fn, d):
+        env, coq_params, sig_params, outs, rt, rty = self.signature(d)
+        self.rty = "(%s)" % rty
+
+        def value(e, r):
             if (r is None) != (rt == ("void",)):
                 raise Untranslatable("return with/without a value")
             xs = [r] if r is not None else []
@@ -857,18 +1189,40 @@ class Translator:
                 else:
                     st = e.cells[key][1]
                     xs.append("None" if st[0] == "unset" else "Some %s" % st[1] if st[0] == "val" else st[1])
-            return "COk (%s)" % ", ".join(xs) if xs else "COk tt"
+            return "(%s)" % ", ".join(xs) if xs else "tt"
+
+        def result(e, r):
+            return "COk " + value(e, r)
 
         def fall(e):
             return result(e, None) if rt == ("void",) else "CUB UB_no_return"
         body = [c for c in d["inner"] if c["kind"] == "CompoundStmt"][0]
-        code = self.stmt(body, env, fall, Ctx(result, None, (fn,)))
+        code = self.stmt(body, env, fall, Ctx(result, None, None, (fn,), value))
+        if self.fuel:
+            coq_params.insert(0, "(v_fuel : nat)")
         head = "Definition src_%s %s : cres (%s) :=" % (fn, " ".join(coq_params), rty)
         run = "Definition srcrun_%s %s : option (cres (%s)) := Some (src_%s %s)." % (
             fn, " ".join(coq_params), rty, fn, " ".join(re.findall(r"\((\w+) :", " ".join(coq_params))))
         return {"text": head + "\n" + indent(code) + ".\n" + run + "\n",
-                "sig": {"params": sig_params, "ret": None if rt == ("void",) else rt[1]},
+                "sig": {"params": sig_params, "ret": None if rt == ("void",) else rt[1], "fuel": self.fuel},
                 "static": d.get("storageClass") == "static"}
+
+    def has_loop(self, fn, seen=()):
+        d = self.ast(fn)
+
+        def walk(n):
+            if n.get("kind") in ("ForStmt", "WhileStmt") or (n.get("kind") == "DoStmt" and not (
+                    n["inner"][1].get("kind") == "IntegerLiteral" and int(n["inner"][1]["value"]) == 0)):
+                return True
+            r = n.get("referencedDecl")
+            if n.get("kind") == "DeclRefExpr" and r and r.get("kind") == "FunctionDecl" and r["name"] not in seen + (fn,):
+                try:
+                    if self.ast(r["name"]) is not None and self.has_loop(r["name"], seen + (fn,)):
+                        return True
+                except (Untranslatable, RuntimeError):
+                    pass
+            return any(walk(c) for c in n.get("inner", []) if isinstance(c, dict))
+        return bool(d) and walk(d)
 
     def untranslated_text(self, fn, why):
         """a definition that cannot be mistaken for a translation (and, when the
@@ -876,22 +1230,10 @@ class Translator:
         txt = "(* %s: NOT TRANSLATED — %s *)\nDefinition src_%s_UNTRANSLATED : unit := tt.\n" % (
             fn, why.replace("*)", "* )"), fn)
         try:
-            d = self.ast(fn)
-            ps, rt = self.params(d), self.ret_type(d)
-            cp, comps = [], ["Z"] if rt != ("void",) else []
-            for p in ps:
-                t = self.ty(p["type"])
-                if t[0] == "int":
-                    cp.append("(v_%s : Z)" % p["name"])
-                elif t[0] == "ptr" and t[2] == ("int", "TU8"):
-                    cp.append("(m_%s : list N)" % p["name"])
-                    comps += [] if t[1] else ["list N"]
-                elif t[0] == "ptr" and t[2][0] == "int":
-                    cp.append("(p_%s : option Z)" % p["name"])
-                    comps += [] if t[1] else ["option Z"]
-                else:
-                    raise Untranslatable("")
-            txt += "Definition srcrun_%s %s : option (cres (%s)) := None.\n" % (fn, " ".join(cp), " * ".join(comps) or "unit")
+            _, cp, _, _, _, rty = self.signature(self.ast(fn))
+            if self.has_loop(fn):
+                cp.insert(0, "(v_fuel : nat)")
+            txt += "Definition srcrun_%s %s : option (cres (%s)) := None.\n" % (fn, " ".join(cp), rty)
         except (Untranslatable, TypeError, KeyError):
             pass
         return txt
@@ -913,8 +1255,6 @@ def translate_file(repo, cfile, functions, module, outdir, wrappers=""):
         tr = Translator(repo, cfile)
     for fn in functions:
         tr.function(fn)
-    if tmp:
-        tmp.cleanup()
     lines = ["(* generated by gen/c2coq.py from src/%s — do not edit.  One definition src_<f> per" % cfile,
              "   translated C function (CSem.v gives the meaning of every c_* operation); a function the",
              "   translator does not fully understand appears as src_<f>_UNTRANSLATED instead. *)",
@@ -931,7 +1271,9 @@ def translate_file(repo, cfile, functions, module, outdir, wrappers=""):
         else:
             ok.append(fn)
             lines.append(info["text"])
-    lines += ["(* variables with static storage duration referred to by the functions above *)",
+    if tmp:
+        tmp.cleanup()
+    lines += ["(* non-const variables with static storage duration referred to by the functions above *)",
               "Definition src_%s_globals_read : list string :=" % module,
               "  [" + "; ".join('"%s"' % g for g in tr.globals_read) + "]%string.", "",
               "Definition src_%s_translated : list string :=" % module,
@@ -949,8 +1291,6 @@ def translate_file(repo, cfile, functions, module, outdir, wrappers=""):
 TAGGED_FUNCTIONS = ["varintTaggedLen", "varintTaggedGetLen", "varintTaggedPut64", "varintTaggedPut64FixedWidth",
                     "varintTaggedGet", "varintTaggedGet64", "varintTaggedGet64ReturnValue", "varintTaggedGetVarint32",
                     "varintTaggedPutVarint32", "varintTaggedAddNoGrow", "varintTaggedAddGrow"]
-
-
 # the function-like macros of varintTagged.h, reachable only after expansion
 TAGGED_WRAPPERS = """
 #include "varintTagged.h"
@@ -961,10 +1301,14 @@ void q_varintTaggedPut64FixedWidthQuick_(uint8_t *dst, uint64_t val, varintWidth
 }
 uint64_t q_varintTaggedGet64Quick_(const uint8_t *src) { return varintTaggedGet64Quick_(src); }
 """
+CSIMPLE_FUNCTIONS = ["varintChainedSimpleEncode64", "varintChainedSimpleLength", "varintChainedSimpleDecode64",
+                     "varintChainedSimpleEncode32", "varintChainedSimpleDecode32Fallback", "varintChainedSimpleDecode32"]
 
 
 def regenerate(repo, outdir):
-    return translate_file(repo, "varintTagged.c", TAGGED_FUNCTIONS, "tagged", outdir, TAGGED_WRAPPERS)
+    info = translate_file(repo, "varintTagged.c", TAGGED_FUNCTIONS, "tagged", outdir, TAGGED_WRAPPERS)
+    info.update(translate_file(repo, "varintChainedSimple.c", CSIMPLE_FUNCTIONS, "csimple", outdir))
+    return info
 
 
 if __name__ == "__main__":
